@@ -29,3 +29,5 @@ def run(ctx: Ctx) -> None:
     ctx.do(R.rule_damparg, [f'{R.BP}.step', f'{R.BP}.load_state_dict'])
     ctx.do(C.rule_enum_compute)
     ctx.do(MEMO.rule_memo)
+    from kfv.rules import dist_rules as _DR
+    ctx.do(_DR.rule_contig)
